@@ -204,6 +204,15 @@ def d5_dtype(ctx, RA, step, roles, appenders):
         ok = isinstance(a, ast.Call) and dotted(a.func) in ('np.asarray', 'np.array') and \
             norm(get_arg(a, 1, 'dtype') or ast.Constant(0)) in (f'{obj}.dtype', f'{obj}._values.dtype', f'{obj}._values._dtype',
                                                                f'{obj}._dtype')
+        if not ok:
+            # or the values appender itself converts at the write (`x.astype(self._dtype, ...).tofile(fd)`)
+            from ..astutil import written_base
+            for k_, t_ in ctx.R.resolve_call(v, step):
+                if k_ == 'repo':
+                    ws_ = [e for e in ctx.E.primitives(t_) if e.kind == 'WRITE-HANDLE']
+                    if ws_ and all(written_base(e.node)[1] is not None and norm(written_base(e.node)[1]) in ('self._dtype', 'self.dtype')
+                                   for e in ws_):
+                        ok = True
         ctx.decide(ok, 'R-FLOW', 'D5', step, v, 'item-cast', f'{step.qualname}: each item is converted with the ragged array\'s dtype before it is written',
                    detail='item reaches the values appender unconverted')
     f = ctx.repo.func('raggedarray.asraggedarray')
